@@ -97,7 +97,11 @@ def gen_config(rng, small=False):
     kinds = [rng.choice(["days", "bl", "cum"]) if b > 0 else "days" for b in bs] if detailed else []
     truthy = [i for i in allids if rng.random() < 0.3] if rng.random() < 0.4 else []
     avail = rng.choice([0.0, 0.0, 0.5, 1.0, 1.0]) if not detailed else None
-    return {"avail": avail, "kinds": kinds, "truthyAll": truthy, "detailed": detailed, "nCycles": nC, "burnSteps": bs, "startCycle": sc, "startNode": sn,
+    bolSet = None
+    if rng.random() < 0.3:
+        c_ = rng.randint(0, nC - 1)
+        bolSet = [rng.choice(allids + [77]), c_, rng.randint(0, bs[c_] if c_ < len(bs) else 0)]
+    return {"bolSet": bolSet, "avail": avail, "kinds": kinds, "truthyAll": truthy, "detailed": detailed, "nCycles": nC, "burnSteps": bs, "startCycle": sc, "startNode": sn,
             "stack": stack, "deferred": deferred, "deferredCycle": defCycle, "coupling": coupling,
             "maxIters": maxIters, "skip": skip, "halt": halt, "conv": conv}
 
@@ -124,7 +128,9 @@ def model_burn_steps(cfg):
 
 
 def run_request(cfg):
-    return ("run {nC} {bs} {sc} {sn} {stack} {dfr} {dc} {cp} {mi} {skip} 0 {halt} {conv}".format(
+    bset = cfg.get("bolSet")
+    return ("run {nC} {bs} {sc} {sn} {stack} {dfr} {dc} {cp} {mi} {skip} 0 {halt} {conv} {bset}".format(
+        bset="_" if not bset else common.intlist(bset),
         nC=cfg["nCycles"], bs=common.intlist(model_burn_steps(cfg)), sc=cfg["startCycle"], sn=cfg["startNode"],
         stack=stack_arg(cfg["stack"]), dfr=common.intlist(cfg["deferred"]), dc=cfg["deferredCycle"],
         cp="T" if cfg["coupling"] else "F", mi=cfg["maxIters"], skip=common.intlist(cfg["skip"]),
@@ -158,6 +164,8 @@ def rec_classes():
             self.script = {(c, n, it) for (i, c, n, it) in cfg["conv"] if i == spec["id"]}
             self.value = 0.0
             self.truthy = spec["id"] in cfg.get("truthyAll", [])   # truthy return values at every hook
+            bset = cfg.get("bolSet")
+            self.restart = (bset[1], bset[2]) if bset and bset[0] == spec["id"] else None
             if spec["coupler"]:
                 # a real TightCoupler: converged iff |value - previous| < 0.5
                 self.coupler = interfaces.TightCoupler("power", 0.5, max(cfg["maxIters"], 1))
@@ -167,6 +175,8 @@ def rec_classes():
 
         def interactBOL(self):
             self._log("BOL")
+            if self.restart is not None:     # what MainInterface.interactBOL does for a restart run
+                self.r.p.cycle, self.r.p.timeNode = self.restart
             return self.truthy
 
         def interactBOC(self, cycle=None):
@@ -287,11 +297,16 @@ def reference(cfg):
     groups = []
     bs = cfg["burnSteps"]
     rc, rn = cfg["startCycle"], cfg["startNode"]
-    groups.append(("BOL", [], rc, rn, [s["id"] for s in ref_active(cfg, "BOL")]))
+    bset = cfg.get("bolSet")
+    for s_ in ref_active(cfg, "BOL"):          # one group per interface: a BOL hook may move the time state
+        groups.append(("BOL", [], rc, rn, [s_["id"]]))
+        if bset and s_["id"] == bset[0]:
+            rc, rn = bset[1], bset[2]
+    startC, startN = rc, rn                    # the loop starts from the time state beginning-of-life left
     conv = {tuple(x) for x in cfg["conv"]}
     halts = {tuple(x) for x in cfg["halt"]}
-    for c in range(cfg["startCycle"], cfg["nCycles"]):
-        first = cfg["startNode"] if c == cfg["startCycle"] else 0
+    for c in range(startC, cfg["nCycles"]):
+        first = startN if c == startC else 0
         rc, rn = c, first
         act = ref_active(cfg, "BOC", c)
         groups.append(("BOC", [c], rc, rn, [s["id"] for s in act]))
@@ -431,6 +446,7 @@ def section_runs(ctx):
             for flag, name in ((cfg["coupling"], "coupling on"), (cfg["detailed"], "detailed cycles input"),
                                (bool(cfg["halt"]), "halting interface"), (bool(cfg["deferred"]), "deferred names"),
                                (cfg["startCycle"] or cfg["startNode"], "restart point"),
+                               (bool(cfg.get("bolSet")), "restart point set inside a BOL hook"),
                                (0 in cfg["burnSteps"], "zero burn steps")):
                 if flag:
                     ctx.count("config: " + name)
@@ -477,6 +493,19 @@ def directed_configs():
         out.append(dict(base, stack=plain_stack(4), halt=[], truthyAll=[pos]))
     out.append(dict(base, stack=plain_stack(3, db=True), halt=[[2, 1]], truthyAll=[1, 2], coupling=True,
                     conv=[]))
+    for hist in (dict(base, nCycles=2, burnSteps=[2, 2]), dict(base, detailed=True, kinds=["bl", "cum", "days"], nCycles=3, burnSteps=[2, 1, 3])):
+        k = 0
+        for c in range(hist["nCycles"]):
+            for n in range(hist["burnSteps"][c] + 1):
+                k += 1
+                setter = 1 + k % 3                       # first, middle, last interface in turn
+                out.append(dict(hist, stack=plain_stack(3), halt=[], bolSet=[setter, c, n]))
+                if k % 2 == 0:
+                    out.append(dict(hist, stack=plain_stack(3), halt=[[2, c]], bolSet=[setter, c, n]))
+        st = plain_stack(3)
+        st[1] = dict(st[1], enabled=False)               # a disabled setter is not called: the run starts at (0, 0)
+        out.append(dict(hist, stack=st, halt=[], bolSet=[2, 1, 1]))
+        out.append(dict(hist, stack=plain_stack(3), halt=[], bolSet=[2, 1, 1], startCycle=0, startNode=1))
     for a in (0.0, 1.0, 0.5):
         out.append(dict(base, stack=plain_stack(2), halt=[], avail=a))
         out.append(dict(base, stack=plain_stack(2), halt=[], avail=a, nCycles=1, burnSteps=[3]))
